@@ -218,14 +218,29 @@ impl BlobStore for PlainBlobStore {
             ZiporaError::io_error(format!("Failed to create blob file {:?}: {}", tmp_path, e))
         })?;
 
+        #[cfg(zipora_verif)]
+        if crate::verif::fault("plain.put.crash_after_create") {
+            return Err(ZiporaError::io_error("injected crash after create".to_string()));
+        }
+
         file.write_all(data).map_err(|e| {
             ZiporaError::io_error(format!("Failed to write blob file {:?}: {}", tmp_path, e))
         })?;
+
+        #[cfg(zipora_verif)]
+        if crate::verif::fault("plain.put.crash_after_write") {
+            return Err(ZiporaError::io_error("injected crash after write".to_string()));
+        }
 
         file.sync_all().map_err(|e| {
             ZiporaError::io_error(format!("Failed to sync blob file {:?}: {}", tmp_path, e))
         })?;
         drop(file);
+
+        #[cfg(zipora_verif)]
+        if crate::verif::fault("plain.put.crash_after_sync") {
+            return Err(ZiporaError::io_error("injected crash after sync".to_string()));
+        }
 
         fs::rename(&tmp_path, &path).map_err(|e| {
             ZiporaError::io_error(format!("Failed to rename blob file {:?} to {:?}: {}", tmp_path, path, e))
